@@ -1090,8 +1090,9 @@ def network(profile="exact", max_ops=6, dtypes=("int8", "int8", "int8", "uint8",
             elif kind == "argmax_tail":
                 Xn = nb.info(cur)
                 ax = nb.t("axis", [], "int32", data=dict(values=[len(Xn["shape"]) - 1]))
-                o = nb.t("argmax", Xn["shape"][:-1], "int32")
-                nb.op("ARG_MAX", [cur, ax], [o], "ArgMaxOptions", dict(OutputType=2), version=2)
+                odt = "int32" if draw(st.integers(0, 4)) else "int64"
+                o = nb.t("argmax", Xn["shape"][:-1], odt)
+                nb.op("ARG_MAX", [cur, ax], [o], "ArgMaxOptions", dict(OutputType=2 if odt == "int32" else 4), version=2)
                 history.append(cur)
                 outputs = [o] + getattr(nb, "extra_outputs", [])
                 return dict(tensors=nb.tensors, ops=nb.ops, inputs=nb.inputs, outputs=outputs)
